@@ -181,6 +181,18 @@ def mutants(s, tier):
                 yield "fieldext", "".join(toks[:i] + [toks[i][0] + toks[i]] + toks[i + 1 :])
                 if len(toks[i]) > 1:
                     yield "fieldcut", "".join(toks[:i] + [toks[i][:-1]] + toks[i + 1 :])
+    # a separator moved by one / two characters between two adjacent fields (same characters overall, another split:
+    # salt one shorter and digest one longer ...) -- what a parser that re-joins fields before use cannot tell apart
+    if 5 <= len(toks) <= 41:
+        for i in range(1, len(toks) - 1, 2):
+            left, sepc, right = toks[i - 1], toks[i], toks[i + 1]
+            if sepc != "$":
+                continue
+            for k in (1, 2):
+                if len(left) > k:
+                    yield "sepmove", "".join(toks[: i - 1] + [left[:-k], sepc, left[-k:] + right] + toks[i + 2 :])
+                if len(right) > k:
+                    yield "sepmove", "".join(toks[: i - 1] + [left + right[:k], sepc, right[k:]] + toks[i + 2 :])
     # numeric fields
     for a, b in numeric_runs(s):
         num = s[a:b]
